@@ -469,7 +469,12 @@ def gen_class(rng, idx, profile, refuse_kind=None):
         init_lines = rng.shuffle(init_lines) + [(n, v) for n, v in rng.shuffle(g.state)]
         # keep declaration (first-assignment) order arbitrary but the LAST assignment of every name = its final value
     for n, v in init_lines:
-        L.append(f'        self.{n} = {v}')
+        # a flag-like initialiser: the literal True/False is the integer 1/0 (Python attributes are untyped: the method stores
+        # multi-bit values into the same attribute later, so the declaration must stay `integer`)
+        lit = {0: 'False', 1: 'True'}[v] if v in (0, 1) and rng.chance(1, 2) else str(v)
+        if lit in ('True', 'False'):
+            g.tags.add('bool-init')
+        L.append(f'        self.{n} = {lit}')
     if refuse_kind == 'subscript':
         pass
     L.append(f'    def {"clock" if seq else "propagate"}(self):')
